@@ -29,15 +29,15 @@ func init() {
 
 // allowlisted discarded errors in the compile call graph: "callee@function" -> reason.
 var c16DropAllow = map[string]string{
-	"seclang.parseActions@internal/seclang.ParseRule":                           "re-parse of an action string that ParseActions has already accepted on this path; only used to look for disruptive actions",
-	"operators.memoizeDo@internal/operators.newPM":                              "the cached closure (matcher build) cannot fail",
-	"operators.memoizeDo@internal/operators.newPMFromFile":                      "the cached closure (matcher build) cannot fail",
-	"operators.memoizeDo@internal/operators.newPMFromDataset":                   "the cached closure (matcher build) cannot fail",
-	"(*strings.Builder).WriteString@*":                                          "strings.Builder never fails",
-	"(*strings.Builder).WriteByte@*":                                            "strings.Builder never fails",
-	"(*strings.Builder).WriteRune@*":                                            "strings.Builder never fails",
-	"fmt.Fprintf@*":                                                             "formatting into an in-memory builder",
-	"strconv.Atoi@internal/operators.(*eq).Evaluate":                            "documented lenient numeric comparison",
+	"seclang.parseActions@internal/seclang.ParseRule":         "re-parse of an action string that ParseActions has already accepted on this path; only used to look for disruptive actions",
+	"operators.memoizeDo@internal/operators.newPM":            "the cached closure (matcher build) cannot fail",
+	"operators.memoizeDo@internal/operators.newPMFromFile":    "the cached closure (matcher build) cannot fail",
+	"operators.memoizeDo@internal/operators.newPMFromDataset": "the cached closure (matcher build) cannot fail",
+	"(*strings.Builder).WriteString@*":                        "strings.Builder never fails",
+	"(*strings.Builder).WriteByte@*":                          "strings.Builder never fails",
+	"(*strings.Builder).WriteRune@*":                          "strings.Builder never fails",
+	"fmt.Fprintf@*":                                           "formatting into an in-memory builder",
+	"strconv.Atoi@internal/operators.(*eq).Evaluate":          "documented lenient numeric comparison",
 }
 
 func runC16(c *an.Ctx) {
